@@ -247,12 +247,15 @@ theorem C04_discard_sample (v : Variant) (d : Bool) (w : Waiter) (h : List Iter)
       · simp [hf, ha] at hev
 
 /-- The model the theorems speak about is what the current source says: the regenerated `Wait`, `IsSlowDown` and
-fire condition coincide with `wait`, `isSlowDown`, `fires`; `MaxOverdueDuration` is the 2 s of the statement. -/
+fire condition coincide with `wait`, `isSlowDown`, `fires`; `MaxOverdueDuration` is the 2 s of the statement; the timer is
+armed for exactly `next - now`. -/
 theorem C04_model_is_source (w : Waiter) (e : Env) (c d s : Bool) :
     Gen.Waiter.Wait w e = ((waitV .fresh w e).w, (waitV .fresh w e).ok) ∧
     Gen.Waiter.IsSlowDown w c = isSlowDown w c ∧ Gen.Waiter.fires d s = fires d s ∧
-    Gen.Waiter.MaxOverdueDuration = 2000000000 ∧ maxOverdue = Gen.Waiter.MaxOverdueDuration :=
-  ⟨Bridge.Waiter.Wait_eq w e, Bridge.Waiter.IsSlowDown_eq w c, Bridge.Waiter.fires_eq d s, rfl, rfl⟩
+    Gen.Waiter.MaxOverdueDuration = 2000000000 ∧ maxOverdue = Gen.Waiter.MaxOverdueDuration ∧
+    (∀ waitFor, Gen.Waiter.timerArmedFor waitFor = waitFor) :=
+  ⟨Bridge.Waiter.Wait_eq w e, Bridge.Waiter.IsSlowDown_eq w c, Bridge.Waiter.fires_eq d s, rfl, rfl,
+    Bridge.Waiter.timerArmedFor_eq⟩
 
 /-! ### non-vacuity: concrete histories meeting the hypotheses, with the conclusions exercised -/
 
